@@ -22,7 +22,8 @@ def tlc_cfg(text, name, **kw):
 
 def run(chk, sd, which, props):
     binp = vlib.go_build("gatesim", "internal/zz_verif/gatesim", ["gatesim/main.go"], sd, faketime=True,
-                         extra_overlay={"internal/loadbalancer/zz_verif_export.go": "accessors/lb_verif_export.go"})
+                         extra_overlay={"internal/loadbalancer/zz_verif_export.go": "accessors/lb_verif_export.go",
+                                        "internal/loadbalancer/zz_verif_probe.go": "accessors/lb_verif_probe.go"})
     scripts = []
     ntr = 0
     for k in which:
